@@ -49,6 +49,10 @@ class Concretiser:
                 s = self.const_src(o)
                 if s is not None: return s
         if depth > 4: return 'Opaque()'
+        # attributes the model says exist (IsAttr): build a plain namespace object carrying them
+        attrs = [(o, zc) for zc, o in self.uni.values() if isinstance(o, str) and o.isidentifier() and _true(m, M.hasattr_(term, zc))]
+        if attrs and not any(_true(m, M.inst(term, zc)) for zc, C in self.uni.classes() if C not in (object,) and C.__module__ == 'builtins'):
+            return 'Attrs(' + ', '.join(f'{n}={self.build(M.attr(term, zc), depth + 1)}' for n, zc in attrs) + ')'
         regs = self.uni.classes()
         tc = [o for zc, o in regs if _true(m, M.inst(term, zc))]
         best, bestscore = RL.Opaque, -1
